@@ -91,6 +91,10 @@ class Channel(AsyncIterable, Generic[ST]):
         return buffer[0]  # noqa: B901
 
     async def __aiter__(self):
+        if self._closed:
+            # nothing to iterate, but still allow other activities to run
+            await postpone()
+            return
         sentinel = object()
         self._consumer_buffers[sentinel] = buffer = deque()  # type: Deque[ST]
         try:
@@ -174,6 +178,10 @@ class Queue(AsyncIterable, Generic[ST]):
                 raise StreamClosed(self)
 
     async def __aiter__(self):
+        if self._closed and not self._buffer:
+            # nothing to iterate, but still allow other activities to run
+            await postpone()
+            return
         while True:
             try:
                 result = await self
